@@ -154,6 +154,9 @@ void set_violation_sink(violation_sink_fn fn);
 
 // for the runner
 void init_process(int pool_threads);
+// run once on every OS thread of the pool (and on the calling thread) before any simulated run: lets the runner warm up
+// thread-local first-use state inside the library, so that no run depends on which runs used that OS thread before
+void set_thread_warmup(void (*fn)(void));
 const std::vector<Event> &recent_events(); // last events (ring, oldest first)
 void set_trace(bool on);                   // keep the full event log
 const std::vector<Event> &full_trace();
